@@ -133,9 +133,52 @@ fn opt_res() -> BoxedStrategy<Option<i32>> {
     prop_oneof![1 => Just(None), 4 => raw_res().prop_map(Some)].boxed()
 }
 
+/// `steps` doubles up (or down) from x
+fn nudge(x: f64, steps: i64) -> f64 {
+    let mut b = x;
+    for _ in 0..steps.unsigned_abs() {
+        let bits = b.to_bits();
+        b = if b == 0.0 {
+            if steps > 0 { f64::from_bits(1) } else { -f64::from_bits(1) }
+        } else if (b > 0.0) == (steps > 0) {
+            f64::from_bits(bits + 1)
+        } else {
+            f64::from_bits(bits - 1)
+        };
+    }
+    b
+}
+
+/// Coordinates that sit exactly on the structure of the grid, or a couple of doubles next to it: face centres,
+/// dodecahedron vertices, edge midpoints, the meridians -93 + 36 j through them, the poles and the equator - where an
+/// azimuth is 0 or 2 pi to rounding, a sector index falls on a table border, a distance is exactly zero. Written
+/// up to two whole turns away as well.
+pub fn structural_coord() -> BoxedStrategy<(f64, f64)> {
+    (0usize..68, any::<bool>(), -2i64..=2, -3i64..=3, -3i64..=3, -12i64..=20)
+        .prop_map(|(idx, snap, turns, dlon, dlat, j)| {
+            let fr = gen::frame();
+            let (lon, lat) = if idx < 12 {
+                crate::oracle::geo::lonlat_of_vec(fr.centres[idx])
+            } else if idx < 32 {
+                crate::oracle::geo::lonlat_of_vec(fr.vertices[idx - 12].0)
+            } else if idx < 62 {
+                crate::oracle::geo::lonlat_of_vec(fr.edges[idx - 32].0)
+            } else {
+                // on a structural meridian at a plain latitude
+                (-93.0 + 36.0 * j as f64, [0.0, 45.0, -45.0, 70.0, -70.0, 10.0][idx - 62])
+            };
+            // the structural meridians are whole degrees (-93 + 36 j): snap to the exact value half of the time
+            let lon = if snap { lon.round() } else { lon };
+            let lon = lon + 360.0 * turns as f64;
+            (nudge(lon, dlon), nudge(lat, dlat))
+        })
+        .boxed()
+}
+
 pub fn calls() -> BoxedStrategy<Call> {
     prop_oneof![
         4 => (raw_coord(), raw_coord(), raw_res()).prop_map(|(lon, lat, res)| Call::Lookup { lon, lat, res }),
+        2 => (structural_coord(), prop_oneof![3 => 0i32..=29, 1 => raw_res()]).prop_map(|((lon, lat), res)| Call::Lookup { lon, lat, res }),
         3 => raw_id().prop_map(|id| Call::Centre { id }),
         3 => (raw_id(), 0u8..3, any::<bool>()).prop_map(|(id, n, closed)| Call::Boundary { id, n, closed }),
         4 => (raw_id(), opt_res()).prop_map(|(id, res)| Call::Children { id, res }),
@@ -156,7 +199,12 @@ pub fn calls() -> BoxedStrategy<Call> {
         3 => (proptest::collection::vec(raw_id(), 0..5), raw_res()).prop_map(|(ids, res)| Call::Uncompact { ids, res }),
         1 => Just(Call::Res0),
         1 => any::<u64>().prop_map(|v| Call::Hex { v }),
-        1 => "\\PC{0,20}".prop_map(|s| Call::HexParse { s }),
+        1 => prop_oneof![
+            2 => "\\PC{0,20}",
+            // what parsers special-case: signs, prefixes, blanks, separators - alone, doubled, around digits
+            2 => "(0x|0X|x|#|\\+|-|\\+\\+|--| |_|\\.|0x0x)?[0-9a-fA-F]{0,17}(h|H|_| |\\+|-|x)?",
+            1 => "[0-9a-fA-FxX+\\-_ ]{0,4}",
+        ].prop_map(|s| Call::HexParse { s }),
     ]
     .boxed()
 }
@@ -174,6 +222,43 @@ fn alias(id: u64) -> Option<(Cell, u64)> {
         return None;
     }
     Some((c, codec::encode(&c)))
+}
+
+/// "Bit patterns that are not a cell are rejected or treated as the canonical cell they alias": a pattern that
+/// cannot alias any cell under the documented layout (face/quintant code 60..63 above resolution 0, face code
+/// 12..63 at resolution 0 - decided by the harness's own reading of the bits) aliases nothing, so the only
+/// allowed outcome of a call that takes it as a cell is Err. The library's own decoder must say the same.
+fn not_a_cell_is_rejected(id: u64, ok: bool, what: &str, st: &mut Stats) -> Result<(), String> {
+    if !hopeless(id) {
+        return Ok(());
+    }
+    st.hit("not-a-cell(face code out of range): must be rejected");
+    if a5::core::serialization::deserialize(id).is_ok() {
+        return Err(format!("deserialize({:#x}) accepts a bit pattern whose face code is out of range", id));
+    }
+    if ok {
+        return Err(format!("{}({:#x}, ..) returned Ok for a bit pattern that is not a cell and aliases none (face code out of range; deserialize rejects it)", what, id));
+    }
+    Ok(())
+}
+
+/// A pattern that is laid out like a cell ID - its lowest set bit sits at one of the 30 marker positions (bit 57 for
+/// resolution 0, bit 56 for resolution 1, the odd bits 55, 53, .., 1 for resolutions 2..29) - but whose top six
+/// bits name no face / quintant: 12..63 at resolution 0, 60..63 above. Patterns whose lowest set bit is anywhere
+/// else have no agreed reading (this library scans for the marker from the bottom and may alias them to a cell or to
+/// the world cell); they are left to the alias rule.
+fn hopeless(id: u64) -> bool {
+    if id == 0 {
+        return false;
+    }
+    let top = id >> 58;
+    let tz = id.trailing_zeros();
+    match tz {
+        57 => top >= 12,
+        56 => top >= 60,
+        t if t <= 55 && t % 2 == 1 => top >= 60,
+        _ => false,
+    }
 }
 
 fn valid_res(r: i32) -> bool {
@@ -210,6 +295,7 @@ pub fn check_call(call: &Call, st: &mut Stats) -> Result<(), String> {
         Call::Centre { id } => {
             id_class(*id, &mut nontrivial);
             let r = a5::cell_to_lonlat(*id);
+            not_a_cell_is_rejected(*id, r.is_ok(), "cell_to_lonlat", st)?;
             if let Ok(p) = &r {
                 if !p.longitude().is_finite() || !p.latitude().is_finite() {
                     return Err(format!("cell_to_lonlat({:#x}) returned a non-finite coordinate ({}, {})", id, p.longitude(), p.latitude()));
@@ -228,6 +314,7 @@ pub fn check_call(call: &Call, st: &mut Stats) -> Result<(), String> {
             id_class(*id, &mut nontrivial);
             let segs = [Some(1), Some(3), None][*n as usize % 3];
             let r = a5::cell_to_boundary(*id, Some(a5::core::cell::CellToBoundaryOptions { closed_ring: *closed, segments: segs }));
+            not_a_cell_is_rejected(*id, r.is_ok(), "cell_to_boundary", st)?;
             if let Ok(v) = &r {
                 for p in v {
                     if !p.longitude().is_finite() || !p.latitude().is_finite() {
@@ -252,6 +339,7 @@ pub fn check_call(call: &Call, st: &mut Stats) -> Result<(), String> {
                 }
             }
             let r = a5::cell_to_children(*id, *res);
+            not_a_cell_is_rejected(*id, r.is_ok(), "cell_to_children", st)?;
             if let Ok(v) = &r {
                 if !valid_res(target) {
                     return Err(format!("cell_to_children({:#x}, {:?}) returned Ok({} cells) for target resolution {}", id, res, v.len(), target));
@@ -281,6 +369,7 @@ pub fn check_call(call: &Call, st: &mut Stats) -> Result<(), String> {
             let cur = a5::get_resolution(*id);
             let target = res.unwrap_or(cur.saturating_sub(1));
             let r = a5::cell_to_parent(*id, *res);
+            not_a_cell_is_rejected(*id, r.is_ok(), "cell_to_parent", st)?;
             if let Ok(p) = r {
                 if !valid_res(target) {
                     return Err(format!("cell_to_parent({:#x}, {:?}) returned Ok({:#x}) for target resolution {}", id, res, p, target));
